@@ -225,6 +225,27 @@ def gen_cases(tier, seed):
                 spec['plan'] = {'faults': [{'at': 't0/s3:UploadPart:2#0', 'phase': 'mid', 'bytes': 3 * MB + 17,
                                             'kind': 'retry500', 'tag': 'FAULT-real'}]}
             cases.append(spec)
+    # one preemption at every statement of the upload / copy code paths: the nth thread to reach the line is held there until every
+    # other thread (the other parts' request threads, the submission thread) has run as far as it can; the object is compared as ever
+    from .. import windows
+
+    quick = tier == 'quick'
+    lines = [l for l in windows.candidate_lines() if l[2].startswith(('UploadSubmissionTask', 'Upload', 'PutObjectTask', 'UploadPartTask', 'CopySubmissionTask',
+                                                                      'CopyObjectTask', 'CopyPartTask', 'CreateMultipartUploadTask', 'CompleteMultipartUploadTask',
+                                                                      'ReadFileChunk', 'DeferredOpenFile', 'Task._get_all_main_kwargs', 'Task._execute_main'))]
+    for line in lines:
+        for rep in range(1 if quick else 5):
+            up = line[0] == 'upload.py' or line[2].startswith(('ReadFileChunk', 'DeferredOpenFile', 'PutObjectTask', 'UploadPartTask'))
+            cp = line[0] == 'copies.py'
+            kind = 'upload' if up else ('copy' if cp else rng.choice(['upload', 'copy']))
+            C = 8
+            t = {'kind': kind, 'size': rng.choice([3 * C, 3 * C + 5, 4 * C + 1, 5])}
+            if kind == 'upload':
+                t['src'] = rng.choice(['path', 'seekable', 'nonseekable'])
+            cfg = dict(multipart_threshold=C, multipart_chunksize=C, max_request_concurrency=rng.choice([2, 3, 4]), max_in_memory_upload_chunks=rng.choice([1, 2, 4]))
+            w = {'file': line[0], 'lineno': line[1], 'name': f'{line[0]}:{line[1]}:{line[2]}', 'nth': rng.randrange(0, 4), 'action': 'pause', 'wait': 0.2}
+            cases.append({'seed': rng.randrange(1 << 30), 'min_part': C, 'config': cfg, 'transfers': [t], 'family': 'window',
+                          'yield': {'p': rng.choice([0.0, 0.1]), 'window': w}, 'plan': {'delay_p': rng.choice([0.0, 0.3])}})
     # executor / subscriber flavours: everything inline in the submitting thread (NonThreadedExecutor, what use_threads=False
     # selects), no subscribers at all, and duck-typed subscribers offering only some callbacks
     for s in cases:
